@@ -215,7 +215,7 @@ def _shard(arg):
             cl.append("width=1")
         rec.case(case, nontrivial(case), cl)
 
-    common.run_given(test, common.derive_seed(seed, "C10", shard), n_examples, holder, rec)
+    common.run_given(test, common.derive_seed(seed, "C10", shard), n_examples, holder, rec, retry=run_case)
     return rec
 
 
